@@ -260,6 +260,16 @@ static Result check_surface(const J &c)
       vp.first.push_back(n[2].num()); vp.second.push_back(n[0].num()); vp.second.push_back(n[1].num());
     }
   if (vp.first.size() < 3) { r.discard = true; return r; }
+  // Listed points are distinct places: two nodes closer together than 1e-6 of the extent of the set (sub-millimetre on a 1000 km
+  // footprint; only the shrinker produces them) are as ill-defined an input as exact duplicates
+  {
+    double xmin = 1e300, xmax = -1e300, ymin = 1e300, ymax = -1e300;
+    for (size_t i = 0; i < vp.first.size(); ++i) { xmin = std::min(xmin, vp.second[2 * i]); xmax = std::max(xmax, vp.second[2 * i]); ymin = std::min(ymin, vp.second[2 * i + 1]); ymax = std::max(ymax, vp.second[2 * i + 1]); }
+    const double ext = std::hypot(xmax - xmin, ymax - ymin);
+    for (size_t i = 0; i < vp.first.size(); ++i)
+      for (size_t j = i + 1; j < vp.first.size(); ++j)
+        if (std::hypot(vp.second[2 * i] - vp.second[2 * j], vp.second[2 * i + 1] - vp.second[2 * j + 1]) < 1e-6 * ext) { r.discard = true; return r; }
+  }
   // need a non-degenerate point set
   {
     bool ok = false;
